@@ -25,6 +25,9 @@ pub struct ClusterCfg {
     pub max_batch_delay: u64,
     pub mempool_sync_retry_ms: u64,
     pub gc_depth: u64,
+    /// Consensus-only nodes: a feeder task plays the mempools (writes fresh batches into every
+    /// node's store, then hands the digest to one node's proposer), so that blocks carry payloads.
+    pub feed_payload: bool,
 }
 
 impl ClusterCfg {
@@ -41,6 +44,7 @@ impl ClusterCfg {
             max_batch_delay: 50,
             mempool_sync_retry_ms: 2_000,
             gc_depth: 50,
+            feed_payload: true,
         }
     }
 }
@@ -75,7 +79,42 @@ impl Cluster {
             }
             nodes.push(Self::start_node(&topo, &cfg, &scratch, i).await);
         }
+        if !cfg.full_node && cfg.feed_payload {
+            Self::spawn_feeder(&nodes, cfg.seed);
+        }
         Self { topo, ctl, scratch, cfg, nodes }
+    }
+
+    /// Plays the mempools of consensus-only nodes: every 20..80 virtual ms a fresh batch is written
+    /// into every real node's store (as if it had been disseminated) and its digest is handed to
+    /// one node's proposer.
+    pub fn spawn_feeder(nodes: &[NodeHandle], seed: u64) {
+        use rand::{Rng as _, SeedableRng as _};
+        let stores: Vec<Store> = nodes.iter().filter_map(|h| h.store.clone()).collect();
+        let senders: Vec<Sender<Digest>> = nodes.iter().filter_map(|h| h.tx_digest.clone()).collect();
+        if stores.is_empty() || senders.is_empty() {
+            return;
+        }
+        tokio::spawn(async move {
+            let mut rng = rand::rngs::StdRng::seed_from_u64(seed ^ 0xfeed);
+            let mut stores = stores;
+            let mut k: u64 = 0;
+            loop {
+                tokio::time::sleep(tokio::time::Duration::from_millis(rng.gen_range(20, 80))).await;
+                k += 1;
+                let mut d = [0u8; 32];
+                d[..8].copy_from_slice(&k.to_le_bytes());
+                d[8] = 0xfd;
+                let digest = Digest(d);
+                for st in stores.iter_mut() {
+                    st.write(digest.to_vec(), b"fed batch".to_vec()).await;
+                }
+                let i = rng.gen_range(0, senders.len());
+                if senders[i].send(digest).await.is_err() {
+                    return;
+                }
+            }
+        });
     }
 
     pub fn store_path(scratch: &Scratch, i: usize) -> String {
